@@ -15,7 +15,9 @@ class C15(C06):
             "barrier onto a cold formatter cache, each thread issues every request of the program (rotated order) — programs "
             "are GR bundles biased to plural selects (cardinal and ordinal, so the first lazily constructed PluralRules of both "
             "kinds race), custom values (as_string_threadsafe) and functions; on the same line the same program runs "
-            "sequentially (th=1). Schedule SAMPLING: real interleavings are not enumerated. Non-trivial = the program "
+            "sequentially (th=1). Half of the lines use a POOL of long-lived worker threads and one process-wide bundle slot: a "
+            "second bundle of another locale replaces the first in place (same address) and is used by the same threads. "
+            "Schedule SAMPLING: real interleavings are not enumerated. Non-trivial = the program "
             "contains a plural-category select on a number; distinct = distinct case line.")
     EXPLANATION = ("Theorems (see evidence): every request's result in the model is a function of (bundle, request) alone — "
                    "the only shared mutable state a request touches is the memoizer, whose concurrent model (C14) shows for ALL "
@@ -35,8 +37,12 @@ class C15(C06):
         g = resgen.GR(rng, depth=rng.choice([1, 2]))
         res = plural + g.resource()
         th = rng.choice([2, 4, 8])
-        cfgbase = "iso=%d;tr=%s;fm=%s;fl=conc;loc=%s" % (rng.randrange(2), rng.choice(["none", "upper", "pseudo", "pseudo"]),
-                                                         rng.choice(["none", "numbr"]), rng.choice(["en", "en-US"]))
+        # pool=1: long-lived worker threads and ONE bundle slot for the whole process - the second bundle of the
+        # line (another locale) replaces the first one in place, at the same address
+        pooled = rng.random() < 0.5
+        locs = rng.sample(["en", "pl", "ru", "ar", "cs", "fr", "lt"], 2) if pooled else [rng.choice(["en", "en-US"])]
+        opts = "iso=%d;tr=%s;fm=%s;fl=conc" % (rng.randrange(2), rng.choice(["none", "upper", "pseudo", "pseudo"]),
+                                               rng.choice(["none", "numbr"]))
         reqs = []
         for m in ["p0", "p1", "p2", "p3", "p4", "p4"] + resgen.MSGS:
             n = rng.choice(["i1", "i2", "i3", "i11", "i21", "n1/1", "t" + hx("1.0"), "i0", "i5"])
@@ -47,7 +53,12 @@ class C15(C06):
             reqs.append("%s:~:%s=%s&%s=%s&%s=%s" % (hx(m), hx("n"), n, hx("c"), cval, hx("d"), dval))
         rng.shuffle(reqs)
         body = "a:%s %s %s" % (hx(res), ",".join(resgen.FUNCS), ",".join(reqs))
-        return "fmt %s;th=%d %s | %s;th=1 %s" % (cfgbase, th, body, cfgbase, body)
+        parts = []
+        for loc in locs:
+            cfgbase = "%s;loc=%s" % (opts, loc)
+            parts.append("%s;th=%d%s %s" % (cfgbase, th, ";pool=1" if pooled else "", body))
+            parts.append("%s;th=1 %s" % (cfgbase, body))
+        return "fmt " + " | ".join(parts)
 
     def generate(self, rng, tier):
         n = 400 if tier == "quick" else 30000
@@ -61,8 +72,10 @@ class C15(C06):
         if "THREADS-DISAGREE" in impl_obs:
             return "threads disagree on a request's result: " + impl_obs[impl_obs.index("THREADS-DISAGREE"):][:160]
         subs = impl_obs.split(" | ")
-        if len(subs) == 2 and subs[0] != subs[1]:
-            return "concurrent results differ from the sequential run"
+        if len(subs) % 2 == 0:
+            for i in range(0, len(subs), 2):
+                if subs[i] != subs[i + 1]:
+                    return "concurrent results differ from the sequential run (bundle %d of the line)" % (i // 2 + 1)
         return None
 
     def nontrivial(self, case, impl_obs):
@@ -71,6 +84,7 @@ class C15(C06):
     def classify(self, case, impl_obs, dist):
         m = re.search(r"th=(\d+)", case)
         bump(dist, "threads=" + (m.group(1) if m else "1"))
+        bump(dist, "pooled-threads-two-locales" if "pool=1" in case else "scoped-threads")
         bump(dist, "requests", impl_obs.split(" | ")[0].count(";") + 1)
 
     def shrink(self, case, fails):
